@@ -111,7 +111,7 @@ func execRoute(input string) string {
 	currentSource = src
 	nroots, _ := strconv.Atoi(toks[4])
 	pos := 5
-	var specs []*nodeSpec
+	var specs, post []*nodeSpec
 	var build func() *node.Config
 	build = func() *node.Config {
 		if pos+4 > len(toks) || toks[pos] != "N" {
@@ -130,6 +130,7 @@ func execRoute(input string) string {
 			}
 			c.Children = append(c.Children, ch)
 		}
+		post = append(post, sp) // nodes are instantiated children first
 		return c
 	}
 	cfg := config.Config{ApplicationName: "verif", MetricsPrefix: "verif", Source: &node.SourceConfig{Name: "vsource", ID: fmt.Sprintf("r%d_src", run)}, ShutdownTimeOut: 2}
@@ -142,7 +143,21 @@ func execRoute(input string) string {
 	}
 	setScenario(specs)
 	defer clearScenario(specs)
+	// a quarter of the nodes subscribe when they are constructed (before the executor calls Init), the others in Setup
+	factorySubsMu.Lock()
+	factorySubs = nil
+	for _, sp := range post {
+		if sp.idx%4 == 1 {
+			factorySubs = append(factorySubs, sp.subs)
+		} else {
+			factorySubs = append(factorySubs, nil)
+		}
+	}
+	factorySubsMu.Unlock()
 	ex, err := executor.New(executor.WithConfig(cfg))
+	factorySubsMu.Lock()
+	factorySubs = nil
+	factorySubsMu.Unlock()
 	if err != nil {
 		return "harness-error " + err.Error()
 	}
@@ -186,10 +201,24 @@ func execRoute(input string) string {
 				note(s.receipts, s.idx)
 			}
 			var es []int
+			// recipients that fail with one shared error value (same text): attributed in delivery order
+			var sharedFailing []int
+			for _, sp := range specs {
+				if sp.failRecv && sp.idx%3 == 2 && len(sp.receipts) > 0 {
+					sharedFailing = append(sharedFailing, sp.idx)
+				}
+			}
 			for _, e := range errs {
 				msg := e.Error()
 				if msg == "recv-fail-source" {
 					es = append(es, -1)
+				} else if msg == "recv-fail-shared" {
+					if len(sharedFailing) > 0 {
+						es = append(es, sharedFailing[0])
+						sharedFailing = sharedFailing[1:]
+					} else {
+						es = append(es, -98)
+					}
 				} else if strings.HasPrefix(msg, "recv-fail-") {
 					v, _ := strconv.Atoi(strings.TrimPrefix(msg, "recv-fail-"))
 					es = append(es, v)
